@@ -161,10 +161,17 @@ def run(ctx):
 # (number, purpose) pair is supplied by the exporter.  Audited from layout21raw/src/data.rs (`LayerPurpose`: "Pin" =
 # pins / ports, "Obstruction" = blockages): each context below must reach `export_layerspec` with exactly that purpose,
 # directly or through helpers of the same exporter that pass their own purpose parameter along.
-PURPOSE_OF_CONTEXT = {
-    "proto::ProtoExporter::export_abstract_port": "Pin",
-    "proto::ProtoExporter::export_abstract_blockages": "Obstruction",
-}
+# Contexts are found by the type a method converts, not by its name: a method of the exporter that takes an
+# `&AbstractPort` is the port context; one that takes an `&Abstract` is the blockage context (calls it makes into the port
+# context excluded).
+PURPOSE_OF_CONTEXT = [
+    ("AbstractPort", "Pin", ()),
+    ("Abstract", "Obstruction", ("AbstractPort",)),
+]
+
+
+def _takes(g, tyname):
+    return any(re.search(r"(^|[^\w])%s$" % tyname, i.get("s", "").replace("&", "").strip()) for i in g.inputs)
 
 
 def _purpose_operand(F, f, b, o, binding):
@@ -204,7 +211,7 @@ def _purpose_operand(F, f, b, o, binding):
     return "?"
 
 
-def _purposes_reached(F, f, binding, depth, seen):
+def _purposes_reached(F, f, binding, depth, seen, skip=()):
     out = []
     b = Body(f)
     impl = f.id.rsplit("::", 1)[0]
@@ -214,12 +221,14 @@ def _purposes_reached(F, f, binding, depth, seen):
             out.append((_purpose_operand(F, f, b, t["args"][2], binding), b.site(bi)))
         elif cid.startswith(impl + "::") and cid in F.fns and depth < 3 and cid not in seen:
             g = F.fns[cid]
+            if any(_takes(g, ty) for ty in skip):
+                continue
             nb = {}
             for j, a in enumerate(t["args"]):
                 lt = g.inputs[j].get("s", "") if j < len(g.inputs) else ""
                 if "LayerPurpose" in lt:
                     nb[j + 1] = _purpose_operand(F, f, b, a, binding)
-            out += _purposes_reached(F, g, nb, depth + 1, seen | {cid})
+            out += _purposes_reached(F, g, nb, depth + 1, seen | {cid}, skip)
     return out
 
 
@@ -228,11 +237,14 @@ def rule_context_purpose(ctx, rid):
     F = ctx.F
     n = 0
     for f in F.fns.values():
-        want = PURPOSE_OF_CONTEXT.get(f.short)
-        if want is None or f.kind == "Closure":
+        if not f.id.startswith("layout21raw::proto::") or "ProtoExporter::" not in f.short or f.kind == "Closure":
             continue
+        ctxs = [(ty, want, skip) for ty, want, skip in PURPOSE_OF_CONTEXT if _takes(f, ty)]
+        if not ctxs:
+            continue
+        ty, want, skip = ctxs[0]
         n += 1
-        got = _purposes_reached(F, f, {}, 0, {f.id})
+        got = _purposes_reached(F, f, {}, 0, {f.id}, skip)
         key = "%s/purpose" % f.short
         bad = [(p, s) for p, s in got if p != want]
         if not got:
